@@ -812,7 +812,7 @@ func (sp *StreamParser) ExecCmd(cb RdbObjExecutor) {
 
 			// The entry-id field is actually two separated fields: the ms
 			// and seq difference compared to the master entry.
-			args := []interface{}{sp.key, fmt.Sprintf("%d-%d", entryMs+masterMs, entrySeq+masterSeq)}
+			args := []interface{}{sp.key, fmt.Sprintf("%d-%d", uint64(entryMs+masterMs), uint64(entrySeq+masterSeq))}
 
 			if flags&2 == 2 { // STREAM_ITEM_FLAG_SAMEFIELDS
 				for j := int64(0); j < numFields; j++ {
